@@ -122,7 +122,7 @@ func (d *SimDB) Lock(c context.Context, id *url.URL) error {
 		}
 	}
 	fn := callerFn()
-	msg := d.s.yield(Op{Kind: opLock, Method: "db.Lock", Srv: d.host(), ID: ids})
+	msg := d.s.yield(Op{Kind: opLock, Method: "db.Lock", Srv: d.host(), ID: ids, Fn: fn})
 	t := d.s.cur
 	if msg.fault == nil {
 		if t.heldBy == nil {
